@@ -441,33 +441,34 @@ fn parse_setup(t: &[&str]) -> Option<(char, bool, u16, u16, u8, u32, u64)> {
 
 fn parse_content(t: &[&str]) -> Option<ContentD> {
     let mut htlcs = Vec::new();
-    for h in &t[9..] {
+    for h in &t[5..] {
         let p: Vec<&str> = h.split(':').collect();
         htlcs.push((p[0] == "o", p[1].parse().ok()?, p[2].parse().ok()?, p[3].parse().ok()?));
     }
     Some(ContentD { commit_num: t[1].parse().ok()?, feerate: t[2].parse().ok()?, to_cs: t[3].parse().ok()?, to_bc: t[4].parse().ok()?, htlcs })
 }
 
-/// ranks of the candidate script_pubkeys by byte order; returns the `content` op line
-fn content_line(sd: &SetupD, c: &ContentD, kt: &KeyTab) -> String {
-    let remote = if ldk_anchors(sd.ctype) { Spk::Wsh(Tpl::RemoteA(5)) } else { Spk::Wpkh(5) };
-    let local = Spk::Wsh(Tpl::Local { rev: 1, delay: sd.holder_delay as i64, delayed: 2 });
-    let mut spks: Vec<Vec<u8>> = vec![spk_bytes(&remote, kt), spk_bytes(&local, kt), spk_bytes(&Spk::Wsh(Tpl::Anchor(6)), kt), spk_bytes(&Spk::Wsh(Tpl::Anchor(7)), kt)];
-    for h in &c.htlcs {
-        let t = if h.0 {
-            Tpl::Off { csv: ldk_anchors(sd.ctype), rev: 1, k1: 4, k2: 3, hash: h.2, hashlen: 20 }
-        } else {
-            Tpl::Recv { csv: ldk_anchors(sd.ctype), rev: 1, k1: 4, hash: h.2, hashlen: 20, k2: 3, cltv: h.3 as i64 }
-        };
-        spks.push(spk_bytes(&Spk::Wsh(t), kt));
+/// the `content` op line: content plus, per HTLC, RIPEMD160 of its payment hash (computed here; the
+/// Lean model computes SHA-256 / P2WSH and the output order itself)
+fn content_line(c: &ContentD) -> String {
+    use lightning_signer::bitcoin::hashes::ripemd160;
+    let mut s = format!("content {} {} {} {}", c.commit_num, c.feerate, c.to_cs, c.to_bc);
+    for h in c.htlcs.iter() {
+        let r = ripemd160::Hash::hash(&payment_hash_bytes(h.2)).to_byte_array();
+        s += &format!(" {}:{}:{}:{}:{}", if h.0 { "o" } else { "r" }, h.1, h.2, h.3, hex::encode(r));
     }
-    let mut sorted = spks.clone();
-    sorted.sort();
-    sorted.dedup();
-    let rank = |b: &Vec<u8>| sorted.binary_search(b).unwrap() + 1;
-    let mut s = format!("content {} {} {} {} {} {} {} {}", c.commit_num, c.feerate, c.to_cs, c.to_bc, rank(&spks[0]), rank(&spks[1]), rank(&spks[2]), rank(&spks[3]));
-    for (i, h) in c.htlcs.iter().enumerate() {
-        s += &format!(" {}:{}:{}:{}:{}", if h.0 { "o" } else { "r" }, h.1, h.2, h.3, rank(&spks[4 + i]));
+    s
+}
+
+/// the `keys` op line: the 33-byte keys of roles 1..7 and HASH160 of the revocation key and of the payment point
+fn keys_line(kt: &KeyTab) -> String {
+    use lightning_signer::bitcoin::hashes::hash160;
+    let mut s = String::from("keys");
+    for i in 1..=7 {
+        s += &format!(" {}", hex::encode(kt.bytes(i)));
+    }
+    for i in [1i64, 5] {
+        s += &format!(" {}", hex::encode(hash160::Hash::hash(&kt.bytes(i)).to_byte_array()));
     }
     s
 }
@@ -625,6 +626,7 @@ impl Group for C04 {
             let t: Vec<&str> = op.split_whitespace().collect();
             let line: String = match t[0] {
                 "impl" => { mode = t[1].parse().unwrap(); point = t[2].parse().unwrap(); "ok".into() }
+                "keys" => "ok".into(),
                 "setup" => {
                     let (ctype, outbound, hd, cd, txid, vout, cv) = parse_setup(&t).expect("setup");
                     cx.sd = Some(SetupD { ctype, outbound, holder_delay: hd, cp_delay: cd, txid, vout, chan_value: cv, mode, point });
@@ -651,7 +653,8 @@ impl Group for C04 {
                                 }
                                 let hf = htlc_tx_fields(&sd, &c, &htlc_of);
                                 let hs: Vec<String> = hf.iter().map(|f| format!("{}:{}:{}:{}:{}", f.0, f.1, f.2, f.3.map(|v| v.to_string()).unwrap_or("x".into()), if f.4 { 1 } else { 0 })).collect();
-                                let line = format!("{} | {}", show_tx_head(&stx), hs.join(" "));
+                                // … and LDK's real serialised bytes, compared with the Lean `ser (canon c)`
+                                let line = format!("{} | {} | {}", show_tx_head(&stx), hs.join(" "), hex::encode(&ldk_bytes));
                                 cx.base = Some(Base { kt, stx, ws, htlc_of, bytes: ldk_bytes });
                                 line
                             }
@@ -839,7 +842,8 @@ fn build_case(sd: &SetupD, c: &ContentD, rng: &mut Rng, tier: Tier) -> Option<Ve
     let mut ops = vec![
         format!("impl {} {}", sd.mode, sd.point),
         format!("setup {} {} {} {} {} {} {} {} {}", sd.ctype, if sd.outbound { 1 } else { 0 }, sd.holder_delay, sd.cp_delay, sd.txid, sd.vout, sd.chan_value, obs, if sd.mode == 2 { 0 } else { 1 }),
-        content_line(sd, c, &kt),
+        keys_line(&kt),
+        content_line(c),
     ];
     let base_pol = pol_of(sd, c);
     ops.push(format!("p2 {}", base_pol.s()));
